@@ -203,6 +203,17 @@ func c02Atoms() []c02Atom {
 	}
 	out = append(out, c02Atom{gen.Not(gen.Bin("=", K(), gen.Str("a"))), "opaque", false})
 	out = append(out, c02Atom{gen.Not(gen.Bin(">", K(), gen.Str("b"))), "opaque", false})
+	// wave 14: point keys that sort after the one-byte key 0xff (C02-y: an open upper end replaced
+	// by that key when points meet a half-bounded range) and comparisons of a computed text over
+	// the key with a literal, which pin nothing (C02-z: planned as a range over the key)
+	out = append(out, c02Atom{gen.In(K(), gen.Str("\xffa"), gen.Str("b"), gen.Str("\xff\xff"), gen.Str("\xff")), "mget", false})
+	out = append(out, c02Atom{gen.Bin("=", K(), gen.Str("\xffa")), "mget", false})
+	out = append(out, c02Atom{gen.Bin(">", gen.Call("lower", K()), gen.Str("a")), "opaque", false})
+	out = append(out, c02Atom{gen.Bin(">=", gen.Call("lower", K()), gen.Str("ab")), "opaque", false})
+	out = append(out, c02Atom{gen.Bin("<", gen.Str("a"), gen.Call("lower", K())), "opaque", false})
+	out = append(out, c02Atom{gen.Bin("<", gen.Call("upper", K()), gen.Str("B")), "opaque", false})
+	out = append(out, c02Atom{gen.Bin(">=", gen.Str("B"), gen.Call("upper", K())), "opaque", false})
+	out = append(out, c02Atom{gen.Bin(">", gen.Bin("+", gen.Str("b"), K()), gen.Str("ba")), "opaque", false})
 	return out
 }
 
